@@ -253,6 +253,61 @@ theorem subscribe_short_circuit (v : Variant) (s : State) (i c : Nat) (x : Waite
   have : i < s'.waiters.length := (List.getElem?_eq_some_iff.mp hx').1
   simp [this]
 
+/-- **subscribe_atomic**: `subscribe` checks the head and registers the channel in ONE critical section. While a
+waiter is between `p.mu.Lock()` and the end of subscribe (`subRead`) it owns the write lock, `Run` is not inside
+notifySubscribers and cannot enter it (no notify action is enabled), and the single step that follows both decides and
+registers: afterwards the waiter either holds a head `≥ target` in its own channel (short circuit) or its channel is in
+the wait list — so no head processed by `Run` can fall between the check and the registration (no lost wake-up;
+replayed on Go by `go.wait.adv.subscribe`). -/
+theorem subscribe_atomic (v : Variant) (s : State) (hr : Reachable v s) (i : Nat) (w : Waiter)
+    (hw : s.waiters[i]? = some w) (hpc : w.pc = .subRead) :
+    s.rw = .wrW i ∧
+    PoolSM.step v s .nRLock = none ∧ PoolSM.step v s .nPut = none ∧ PoolSM.step v s .nDone = none ∧
+    (∀ k, PoolSM.step v s (.nSend k) = none ∧ PoolSM.step v s (.nDrain k) = none) ∧
+    (∀ s', PoolSM.step v s (.wSub i) = some s' → s'.rw = .free ∧ ∃ x', s'.waiters[i]? = some x' ∧
+      (x'.pc = .done .panic ∨
+       (x'.pc = .sel ∧ ((x'.wid = 0 ∧ ∃ h ∈ x'.buf, w.target ≤ h) ∨ (x'.wid, i) ∈ s'.waitList)))) := by
+  have hA := reachable_invA hr
+  have hrw : s.rw = .wrW i := (hA.l1 i w hw).mp hpc
+  have hl4 := hA.l4
+  have hlt : i < s.waiters.length := (List.getElem?_eq_some_iff.mp hw).1
+  refine ⟨hrw, ?_, ?_, ?_, ?_, ?_⟩
+  · simp only [PoolSM.step]; grind
+  · simp only [PoolSM.step]; grind
+  · simp only [PoolSM.step]; grind
+  · intro k; constructor <;> (simp only [PoolSM.step]; grind)
+  · intro s' hs
+    simp only [PoolSM.step, hw, hpc, if_true] at hs
+    split at hs
+    · cases hs
+      exact ⟨rfl, { w with pc := .done .panic }, by simp [State.setW, hlt], Or.inl rfl⟩
+    · rename_i c _
+      split at hs
+      · split at hs
+        · rename_i hge
+          cases hs
+          exact ⟨rfl, { w with pc := .sel, buf := [s.heads.getD c 0], wid := 0 }, by simp [State.setW, hlt],
+            Or.inr ⟨rfl, Or.inl ⟨rfl, s.heads.getD c 0, by simp, hge⟩⟩⟩
+        · cases hs
+          exact ⟨rfl, { w with pc := .sel, wid := s.nextId + 1 }, by simp [State.setW, hlt],
+            Or.inr ⟨rfl, Or.inr (by simp [State.setW])⟩⟩
+      · cases hs
+
+/-- **publish_not_dropped** (repaired SetMasterHead): once a caller has stored its head (`sendUnlocked`) the only way
+it ever leaves that point is the channel send, which appends exactly its update `(conn, head)` to
+`masterHeadUpdatedCh`; no other action moves or discards it, and the send is enabled exactly when the channel has room
+(it waits, holding no lock, otherwise — and `no_deadlock` shows Run then drains). A `select … default` send that
+drops the update when the channel is full is NOT this model (replayed on Go by `go.wait.adv.queue`). -/
+theorem publish_not_dropped (v : Variant) (s s' : State) (a : Action) (j : Nat) (x : Setter)
+    (hs : PoolSM.step v s a = some s') (hx : s.setters[j]? = some x) (hpc : x.pc = .sendUnlocked) :
+    (s'.setters[j]? = some x ∨
+      (a = .sSend j ∧ s'.upd = s.upd ++ [(x.conn, x.head)] ∧ s'.setters[j]? = some { x with pc := .done })) ∧
+    ((PoolSM.step v s (.sSend j)).isSome = true ↔ s.upd.length < updCap) := by
+  constructor
+  · cases a <;> step_cases hs <;> grind [State.setW, State.setS]
+  · simp only [PoolSM.step, hx, hpc]
+    split <;> simp_all
+
 /-- **eventually_notified** (repaired code): nothing notifySubscribers offers is lost. If a head `m ≥ target` has
 been offered to a waiter that is still in its select, then a head `≥ target` is in its channel, or `Run` is between
 its two selects about to put one there into the (empty) channel — so the waiter's receive case is, or is about to
